@@ -136,7 +136,7 @@ class World:
 
     def val(self, v, eid):
         """results of different event instances are made distinguishable (mix-ups between in-flight calls)"""
-        if self.value_by_eid and isinstance(v, int) and eid is not None:
+        if self.value_by_eid and isinstance(v, int) and v != 0 and eid is not None:     # 0 stays 0 (falsy results are part of the alphabets)
             return v + 1000 * eid
         return v
 
